@@ -1,7 +1,7 @@
 (* Extraction of the executable model and oracles.  ExtrOcamlBasic only: numbers stay
    the extracted inductives (positive / N / Z / nat). *)
 From Coq Require Import ExtrOcamlBasic ZArith.
-From ZV Require Import Str Dec Rx RegexSrc Sanitize SanitizeSpec SemVer.
+From ZV Require Import Str Dec Rx RegexSrc Sanitize SanitizeSpec SemVer Pep440.
 Extraction Language OCaml.
 Extraction "Extract/model.ml"
   N.div N.modulo N.add N.mul Z.add
@@ -12,4 +12,7 @@ Extraction "Extract/model.ml"
   Dec.parse_dec Dec.print_dec Rx.rx_accepts
   RegexSrc.semver_src RegexSrc.semver_spec RegexSrc.semver_atom_of
   SemVer.semver_parse SemVer.semver_extract SemVer.semver_print SemVer.semver_cmp SemVer.semver_eqb
-  SemVer.max_by_last SemVer.semver_check SemVer.strip_v SemVer.semver_docker.
+  SemVer.max_by_last SemVer.semver_check SemVer.strip_v SemVer.semver_docker
+  RegexSrc.pep440_src RegexSrc.pep440_spec RegexSrc.pep440_atom_of
+  Pep440.pep_parse Pep440.pep_extract Pep440.pep_print Pep440.pep_cmp Pep440.pep_eqb Pep440.pep_check
+  Pep440.pep_caps.
